@@ -13,6 +13,7 @@ mod fam_conc;
 mod fam_vss;
 mod fam_srv;
 mod fam_shapes;
+mod fam_viss;
 mod util;
 
 use codec::Tok;
@@ -26,6 +27,7 @@ fn run_case(fam: i64, case: &[Vec<Tok>]) -> Vec<Vec<Tok>> {
         1 | 16 => fam_hist::run_case(case),
         17 => fam_vss::run_case(case),
         6 | 18 => fam_srv::run_case(case),
+        20 => fam_hist::run_case_with(case, true),
         15 => case.iter().map(|l| fam_wire::run_line(l)).collect(),
         11 => case.iter().map(|l| fam_conc::run_trace_line(l)).collect(),
         12 => case.iter().map(|l| fam_conc::run_sched_line(l)).collect(),
